@@ -53,9 +53,9 @@ type c12Model struct {
 	// RFC 7540 does not fix their treatment (C20 leaves them out for the same reason), so the client may deliver
 	// or refuse such a response and the content oracle does not apply
 	unspecified bool
-	status    string
-	fields    []refhpack.Field
-	body      []byte
+	status      string
+	fields      []refhpack.Field
+	body        []byte
 }
 
 // c12Reference parses the octets the server will have written and says, per
